@@ -339,6 +339,14 @@ func (o Bool) Equal(right Object) bool {
 	if v, ok := right.(Uint); ok {
 		return bool((o && v == 1) || (!o && v == 0))
 	}
+
+	if v, ok := right.(Float); ok {
+		return bool((o && v == 1) || (!o && v == 0))
+	}
+
+	if v, ok := right.(Char); ok {
+		return bool((o && v == 1) || (!o && v == 0))
+	}
 	return false
 }
 
@@ -1193,7 +1201,13 @@ func (o Map) IndexGet(index Object) (Object, error) {
 func (o Map) Equal(right Object) bool {
 	v, ok := right.(Map)
 	if !ok {
-		return false
+		sm, ok := right.(*SyncMap)
+		if !ok || sm == nil {
+			return false
+		}
+		sm.RLock()
+		defer sm.RUnlock()
+		v = sm.Value
 	}
 
 	if len(o) != len(v) {
@@ -1341,6 +1355,9 @@ func (o *SyncMap) IndexGet(index Object) (Object, error) {
 
 // Equal implements Object interface.
 func (o *SyncMap) Equal(right Object) bool {
+	if v, ok := right.(*SyncMap); ok && v == o {
+		return true
+	}
 	o.mu.RLock()
 	defer o.mu.RUnlock()
 
